@@ -273,6 +273,11 @@ def check_sum_images(case, cls):
         boxes.append(box)
     G = m.Functor(ob, ar)
     a, b = boxes
+    for box in boxes:   # the image of the box is the sum it was given
+        eq(G(box), ar[box], "sum-image")
+        require(type(G(box)) is type(ar[box]) and len(G(box).terms) == 2,
+                "C04:sum-image", lambda: repr(G(box)))
+    eq(G(a @ b), ar[a] @ ar[b], "tensor-of-sum-images")
     eq(G(a @ b), G(a) @ G(b), "tensor-of-sum-images")
     eq(G(b @ a @ b), G(b) @ G(a) @ G(b), "tensor-of-sum-images")
     if specs.tkey(a.cod) == specs.tkey(b.dom):
